@@ -17,10 +17,12 @@ import (
 	"verif/checks/c16"
 	"verif/checks/c17"
 	"verif/checks/c19"
+	"verif/checks/c20"
 	"verif/common"
 )
 
 func init() {
+	registry["C20"] = c20.Run
 	registry["C17"] = c17.Run
 	registry["C16"] = c16.Run
 	registry["C15"] = c15.Run
